@@ -97,6 +97,16 @@ CHECKS = {
              "stream-editing programs run under ASan+LSan+UBSan with logging allocators whose traces go through the proved ledger "
              "checker. Not proved: absence of undefined behaviour in the C text of the skeleton beyond table lookups and the ledger.",
         design="DESIGN.md section 6 C13", technique="machine-checked proof (Rocq) of index ranges and of the allocation-ledger checker + sanitizer-instrumented differential runs"),
+    "C14": dict(
+        text="PARTIAL. Rocq theorems about the fault machine (coq/Faults.v): C14_yyread_loop_meets_spec (the retry loop of yyread() obtains "
+             "exactly the specified chunks), C14_eintr_transparent (interrupted reads, wherever and however often they occur, change "
+             "nothing), C14_no_loss_no_duplication, C14_tokens_before_failure_are_true_tokens (whatever a scanner delivers before the "
+             "request that fails is a prefix of the token stream of the complete input: nothing is scanned on truncated input). Scanners "
+             "reading through a stream whose low-level reads follow generated schedules of short reads / EINTR / EIO (3 back ends, batch "
+             "and interactive, buffered and unbuffered) are compared with the extracted machine; allocation failures are injected at EVERY "
+             "request index of buffer histories and stream programs (ASan/UBSan on): documented message or error return, event prefix of "
+             "the fault-free run, no memory error. Not proved: the NULL checks in the C text (decided by exhaustive injection only).",
+        design="DESIGN.md section 6 C14", technique="machine-checked proof (Rocq) of the read-fault machine + exhaustive fault injection compared with the extracted machine"),
     "C15": dict(
         text="Rocq theorems about the documented file format (coq/Codec.v): C15_table_round_trip (id, flags, hilen, lolen, big-endian "
              "data of the flagged width, zero padding: decode(encode t ++ rest) = (t, rest)), C15_tables_are_64bit_aligned, "
